@@ -155,6 +155,15 @@ async fn snapshot(qs: &QueryServer, hist: &mut Hist, base: Option<u64>, prev: &[
     let uniq: Vec<Attribute> = r.get_schema().get_attributes_unique().clone();
     let mut ents = vec![];
     let mut gens = vec![];
+    // creation ids of the tracked pool entries as they are now
+    let mut now_at: BTreeMap<u64, (u64, u64)> = BTreeMap::new();
+    for e in all.iter() {
+        if let Some(i) = hist.pool_id(&e.get_uuid()) {
+            if let HookState::Live { at, .. } = &entry_parts(e.as_ref()).state {
+                now_at.insert(i, hist.cid(at));
+            }
+        }
+    }
     for e in all.iter() {
         let u = e.get_uuid();
         let id = if let Some(i) = hist.pool_id(&u) {
@@ -172,17 +181,17 @@ async fn snapshot(qs: &QueryServer, hist: &mut Hist, base: Option<u64>, prev: &[
                 continue; // not ours (built-in or another history)
             }
             let b = base.expect("conflict copy appeared outside a replication step");
-            // The copy keeps the loser's creation id and carries source_uuid = the loser's uuid, possibly next to
-            // source uuids from an earlier attribute conflict: the loser is the one whose previous state on this
-            // replica had that creation id.
-            let cat = match &entry_parts(e.as_ref()).state {
-                HookState::Live { at, .. } => hist.cid(at),
-                HookState::Tombstone { .. } => panic!("conflict copy is a tombstone"),
-            };
+            // The copy carries source_uuid = the loser's uuid, possibly next to source uuids from an earlier
+            // attribute conflict: the loser is the tracked entry that this transaction replaced on this replica
+            // (its creation id differs from the one in the previous snapshot).  Since /repo 41afc51 the copy is
+            // created at the transaction's own change id, so its `at` no longer identifies the loser.
             let pick = src
                 .iter()
                 .copied()
-                .find(|c| prev.iter().any(|p| p.uuid == *c && p.at == cat) && !hist.known.values().any(|k| *k == b + *c))
+                .find(|c| {
+                    let replaced = prev.iter().any(|p| p.uuid == *c && now_at.get(c).map(|a| *a != p.at).unwrap_or(false));
+                    replaced && !hist.known.values().any(|k| *k == b + *c)
+                })
                 .unwrap_or_else(|| panic!("cannot attribute conflict copy {:?} sources {:?}", e, src));
             let id = b + pick;
             hist.known.insert(u, id);
